@@ -248,6 +248,8 @@ func witnessCases() []Case {
 	mk("witness-map", []*T{rec(F{"m", mp(p(idString), p(idInt64))}), rec(F{"m", mp(p(idString), p(idString))})})
 	mk("witness-array-set", []*T{rec(F{"a", arr(p(idInt64))}), rec(F{"a", set(p(idInt64))})})
 	mk("witness-record-in-union", []*T{rec(F{"a", p(idInt64)}), p(idString), rec(F{"b", p(idInt64)})})
+	mk("witness-error-value", []*T{p(idInt64), {K: "e", Elems: []*T{p(idString)}}})
+	mk("witness-enum", []*T{rec(F{"e", &T{K: "en", Syms: []string{"a", "b"}}}), rec(F{"e", p(idString)}), rec(F{"e", &T{K: "en", Syms: []string{"a", "b", "c"}}})})
 	mk("witness-union-record-createStep", []*T{rec(F{"u", un(rec(F{"a", p(idInt64)}), p(idString))}), rec(F{"u", rec(F{"b", p(idInt64)})})})
 	return out
 }
